@@ -156,7 +156,7 @@ def rule_t1(chk: Check, funcs) -> None:
     chk.rule("T1", "with a TOFU database configured, no path from create_connection to awaiting the response avoids the success edge of tofu_db.verify")
     chk.require("T1", SESSION, "connecting functions", len(funcs), 2, "the client no longer has both a fetch and an upload path")
     for fi in funcs:
-        g = build_cfg(chk.proj, fi)
+        g = Builder(chk.proj, inline_local, 3).build(fi)  # the check may live in a helper
         conn, waits, ver = _conn_nodes(g), _wait_nodes(g), _verify_nodes(g)
         if not waits:
             chk.finding("T1", fi.key, "no-wait-node", "cannot locate where the response is awaited", fi.loc())
